@@ -732,8 +732,23 @@ impl<'a> Interp<'a> {
         }
     }
 
+    /// Size of the live write-ahead log (for `Op::PutTail`).
+    fn wal_size(&self) -> u64 {
+        let path = format!("db/wal/wal-{}.log", self.db().verif_state().db_wal_number);
+        match &self.disk {
+            None => self.fs.read_file(&path).map_or(0, |d| d.len() as u64),
+            Some((_, root)) => std::fs::metadata(root.join(&path)).map_or(0, |m| m.len()),
+        }
+    }
+
     fn exec(&mut self, op: &Op) -> R<()> {
         match op {
+            Op::PutTail(s, r) => {
+                let klen = self.key(*s).len();
+                let len = tail_value_len(self.wal_size(), klen, *r).unwrap_or(40);
+                self.stats.bump("put_that_leaves_less_than_a_header_in_the_wal_block");
+                return self.exec(&Op::Put(*s, Val { len, compressible: false }));
+            }
             Op::Put(s, v) => {
                 let k = self.key(*s);
                 self.counter += 1;
